@@ -392,6 +392,21 @@ def failing_op(rng, st_depth_hint=0):
     ])
 
 
+def edge_op(rng):
+    """operations of the --allow-disabled-opcodes set with operands at the edges of their domain (zero divisors,
+    shifts by 0 / 63 / 64 / negative counts, slices at and beyond the ends): each must end in a result or a script error"""
+    x = rng.choice([0, 1, -1, 7, -7, 255, 2147483647, -2147483647])
+    return rng.choice([
+        [x, 0, "OP_DIV"], [x, 0, "OP_MOD"], [0, 0, "OP_DIV"], [x, -1, "OP_DIV"], [x, -1, "OP_MOD"], [x, 1, "OP_MOD"],
+        [x, "OP_2DIV"], [x, "OP_2MUL"], [x, x, "OP_MUL"],
+        [x, 0, "OP_LSHIFT"], [x, 63, "OP_LSHIFT"], [x, 64, "OP_LSHIFT"], [x, -1, "OP_LSHIFT"], [x, 2147483647, "OP_LSHIFT"],
+        [x, 0, "OP_RSHIFT"], [x, 63, "OP_RSHIFT"], [x, 64, "OP_RSHIFT"], [x, -1, "OP_RSHIFT"],
+        [b"", b"", "OP_CAT"], [b"", "OP_INVERT"], [b"\x01", b"", "OP_AND"], [b"", b"\x01\x02", "OP_XOR"],
+        [b"abcdef", 0, 0, "OP_SUBSTR"], [b"abcdef", 6, 1, "OP_SUBSTR"], [b"abcdef", -1, 2, "OP_SUBSTR"], [b"abcdef", 2, -1, "OP_SUBSTR"], [b"", 0, 0, "OP_SUBSTR"],
+        [b"abcdef", 7, "OP_LEFT"], [b"abcdef", -1, "OP_LEFT"], [b"", 0, "OP_LEFT"], [b"abcdef", 7, "OP_RIGHT"], [b"abcdef", -1, "OP_RIGHT"], [b"", 0, "OP_RIGHT"],
+    ])
+
+
 def throwing_op(rng):
     """tokens whose execution raises a C++ exception after partial mutation"""
     return rng.choice([
